@@ -234,6 +234,11 @@ def gen_algebra(rng, reps, shapes):
                                 return None  # the code divides by floor(s): outside the domain
                             a = g.cells(ta, n, nonzero=(op == "div" and kind == "SR"),
                                         pow2=(op == "div" and kind == "SR" and exact))
+                            if kind == "CS" and ta == ts and n >= 2 and rng.random() < 0.4:
+                                # the scalar is (a reference to) the raster's own first cell: the
+                                # harness passes that cell itself; every cell must still see the
+                                # ORIGINAL value of the scalar (value semantics)
+                                a[0] = s
                             try:
                                 if kind == "SR":
                                     res = [conv(ta, c_arith(op, (ts, s), (ta, x))) for x in a]
